@@ -186,7 +186,7 @@ func run(c *hc.Ctx) error {
 	}
 
 	// ---- 1. sequences of payloads through Write → chunked stream → Read
-	nseq := c.N(700, 60000)
+	nseq := c.N(700, 12000)
 	for i := 0; i < nseq; i++ {
 		kind := hc.Pick(r, c16c17.Kinds...)
 		seq0 := int64(hc.Pick(r, 0, 0, 0, 1, 5, r.Intn(100000)))
@@ -333,8 +333,9 @@ func run(c *hc.Ctx) error {
 			}
 			c.Count("detect.arbitrary")
 		} else {
-			if err, _ := writeOne(kind, cd, &wire, append([]byte{}, p...), r.Bytes(4)); err != nil {
-				return err
+			if err, pn := writeOne(kind, cd, &wire, append([]byte{}, p...), r.Bytes(4)); err != nil || pn != nil {
+				fail(c, "write-error:"+kind, "enc "+kind+" 0 - "+hc.Hex(p), fmt.Sprintf("valid payload rejected: %v %v", err, pn))
+				continue
 			}
 			c.Count("detect." + kind)
 		}
@@ -427,6 +428,11 @@ func endToEnd(c *hc.Ctx) error {
 			wg.Add(1)
 			go func(s int) {
 				defer wg.Done()
+				defer func() {
+					if r := recover(); r != nil {
+						sendErr <- fmt.Errorf("Send panicked: %v", r)
+					}
+				}()
 				for _, p := range sent[s] {
 					if err := client.Send(ctx, &bin.Buffer{Buf: append([]byte{}, p...)}); err != nil {
 						sendErr <- err
